@@ -24,7 +24,7 @@ fn show(bytes: &[u8]) -> String {
 // (a) fixed point
 
 /// local mean time offsets (before a zone adopted standard time) carry seconds, which neither
-/// encoding can write: open known finding F25, excluded from the generated search
+/// encoding can write (finding F25, repaired in /repo c786ff0): counted as a class
 fn has_offset_with_seconds(v: &RVal) -> bool {
     let mut bad = false;
     v.walk(&mut |n| {
@@ -50,10 +50,10 @@ fn zinc_fixed_point_opt(text: &str, rec: &mut Rec, strict: bool) -> Verdict {
     };
     rec.class("zinc:accepted");
     let r1 = project(&d1);
-    if !strict && has_offset_with_seconds(&r1) {
-        rec.excluded("timestamp-whose-zone-offset-has-seconds(F25)");
-        return Verdict::Pass;
+    if has_offset_with_seconds(&r1) {
+        rec.class("timestamp-whose-zone-offset-has-seconds");
     }
+    let _ = strict;
     let e1 = match zinc_encode(&d1) {
         Ok(t) => t,
         Err(f) => return prefix_sig("C11:zinc-fixpoint:encode(d1)", f, &shape(&r1)),
@@ -104,10 +104,10 @@ fn hayson_fixed_point_opt(text: &str, rec: &mut Rec, strict: bool) -> Verdict {
     };
     rec.class("hayson:accepted");
     let r1 = project(&d1);
-    if !strict && has_offset_with_seconds(&r1) {
-        rec.excluded("timestamp-whose-zone-offset-has-seconds(F25)");
-        return Verdict::Pass;
+    if has_offset_with_seconds(&r1) {
+        rec.class("timestamp-whose-zone-offset-has-seconds");
     }
+    let _ = strict;
     let e1 = match enc(&d1) {
         Ok(Ok(t)) => t,
         Ok(Err(e)) => return Verdict::fail(format!("C11:hayson-fixpoint:encode(d1):error:{}", shape(&r1)), format!("{e}; original {}", show(text.as_bytes()))),
